@@ -97,17 +97,18 @@ func resKey(cr common.CheckResult) string {
 
 // real store plus the real adder / remover around it
 type rig struct {
-	store  interface {
+	store interface {
 		Add(...common.CheckResult)
 		Remove(...string)
 		View() ([]common.CheckResult, error)
 		Start(context.Context) error
 	}
-	post   postprocessors.PostProcessor
-	hook   hooks.RemoveFromStagingHook
-	direct bool
-	table  map[string]c10Res
-	t0     time.Time
+	post     postprocessors.PostProcessor
+	hook     hooks.RemoveFromStagingHook
+	direct   bool
+	table    map[string]c10Res
+	t0       time.Time
+	lastView []common.CheckResult // raw slice returned by the last "view" operation
 }
 
 func newRig(direct bool) *rig {
@@ -115,6 +116,11 @@ func newRig(direct bool) *rig {
 	st := stores.New(lg)
 	return &rig{store: st, post: postprocessors.NewEligiblePostProcessor(st, lg), hook: hooks.NewRemoveFromStagingHook(st, lg),
 		direct: direct, table: map[string]c10Res{}}
+}
+
+type heldView struct {
+	at int
+	v  []common.CheckResult
 }
 
 func (rg *rig) learn(ops []c10Op) {
@@ -160,20 +166,25 @@ func (rg *rig) do(o c10Op) []c10Res {
 		}
 	case "view":
 		v, err := rg.store.View()
-		out := []c10Res{}
 		if err != nil {
 			return []c10Res{{W: 0, B: 0, U: 999}}
 		}
-		for _, cr := range v {
-			if r, ok := rg.table[resKey(cr)]; ok {
-				out = append(out, r)
-			} else {
-				out = append(out, c10Res{W: 0, B: 0, U: 0}) // foreign value
-			}
-		}
-		return out
+		rg.lastView = v
+		return rg.project(v)
 	}
 	return nil
+}
+
+func (rg *rig) project(v []common.CheckResult) []c10Res {
+	out := []c10Res{}
+	for _, cr := range v {
+		if r, ok := rg.table[resKey(cr)]; ok {
+			out = append(out, r)
+		} else {
+			out = append(out, c10Res{W: 0, B: 0, U: 0}) // foreign value
+		}
+	}
+	return out
 }
 
 func runSeq(t *testing.T, c *c10Case) {
@@ -187,6 +198,7 @@ func runSeq(t *testing.T, c *c10Case) {
 		rg.t0 = time.Now()
 		obs := &c10Obs{}
 		lastOp := int64(-1)
+		var held []heldView
 		for _, o := range c.Ops {
 			if o.K == "sleep" {
 				time.Sleep(time.Duration(o.D))
@@ -198,12 +210,21 @@ func runSeq(t *testing.T, c *c10Case) {
 			if k := (at - 1) / gcEveryNs; k >= 1 && k*gcEveryNs > lastOp && k*gcEveryNs < at {
 				obs.Trace = append(obs.Trace, c10Ev{Op: c10Op{K: "gc"}, At: k * gcEveryNs})
 			}
+			rg.lastView = nil
 			v := rg.do(o)
 			obs.Trace = append(obs.Trace, c10Ev{Op: o, At: at, View: v})
+			if rg.lastView != nil {
+				held = append(held, heldView{len(obs.Trace) - 1, rg.lastView})
+			}
 			lastOp = at
 		}
 		cancel()
 		<-done
+		// what View handed out is the caller's (the observation hook sorts and trims it): it is judged with the content
+		// it has after all later operations of the case
+		for _, h := range held {
+			obs.Trace[h.at].View = rg.project(h.v)
+		}
 		c.Obs = obs
 	})
 }
@@ -271,10 +292,10 @@ func runConc(t *testing.T, c *c10Case) {
 
 // ---------------------------------------------------------------- generators
 
-func add(rs ...c10Res) c10Op  { return c10Op{K: "add", Rs: rs} }
-func rem(ids ...int) c10Op    { return c10Op{K: "remove", Ids: ids} }
-func view() c10Op             { return c10Op{K: "view"} }
-func sleep(d int64) c10Op     { return c10Op{K: "sleep", D: d} }
+func add(rs ...c10Res) c10Op          { return c10Op{K: "add", Rs: rs} }
+func rem(ids ...int) c10Op            { return c10Op{K: "remove", Ids: ids} }
+func view() c10Op                     { return c10Op{K: "view"} }
+func sleep(d int64) c10Op             { return c10Op{K: "sleep", D: d} }
 func R(w int, b uint64, u int) c10Res { return c10Res{W: w, B: b, U: u} }
 
 func c10Boundary() []c10Case {
@@ -316,7 +337,9 @@ func c10Boundary() []c10Case {
 	cs = append(cs, c10Case{Kind: "seq", Family: "direct-api", Direct: true,
 		Ops: []c10Op{add(R(1, 10, 1), R(2, 3, 2)), rem(2), add(R(2, 2, 3)), view(), sleep(ttlNs + 1), add(R(1, 10, 4)), view()}})
 
-	conc := func(fam string, scripts ...[]c10Op) { cs = append(cs, c10Case{Kind: "conc", Family: fam, Scripts: scripts}) }
+	conc := func(fam string, scripts ...[]c10Op) {
+		cs = append(cs, c10Case{Kind: "conc", Family: fam, Scripts: scripts})
+	}
 	conc("conc-ttl-crossing",
 		[]c10Op{add(R(1, 10, 1)), sleep(ttlNs), view(), sleep(1), view()},
 		[]c10Op{sleep(ttlNs), view(), sleep(1), add(R(1, 10, 2)), view()},
